@@ -50,6 +50,11 @@ CLAIMED = {
                 "proceeds (range event / pointer handed out) only for non-null, non-wrapping ranges wholly inside (sandbox side) or not straddling "
                 "(application side), touches exactly the designated bytes, and a valid non-empty request is not refused - for all starts and all 2^64 extents.",
             "Loop-bound preconditions: count<=6, first NUL within 7 bytes.", "DESIGN.md 4/C10"),
+    "C09": (MC, "12 copy_and_verify variants (values, pointers, struct, array, range, strings with both verifier signatures incl. a sandbox-resident "
+                "char*, deny_access copy) executed with adversarial sandbox memory - every read returns a fresh unconstrained value, i.e. any interleaving "
+                "of a sandbox writer - and a logging verifier: the verifier's object is in application memory, no sandbox read happens once the verifier "
+                "is entered, string buffers have exactly checked-length+1 bytes ending in NUL for every adversary choice, no application overrun or null write.",
+            "Counterexamples are solver-chosen schedules and are not replayed natively; bounds strlen<=6, count<=4.", "DESIGN.md 4/C09"),
     "C05": (MC, "p+n, p-n, +=, -=, ++/-- (pre/post), p[n], &p[n] for 8 pointee types x integer index types (plain, tainted, tainted_volatile) on LP32/LP16 "
                 "model backends with symbolic region base, pointer and full-width index: returns iff the exact 128-bit address p+/-n*s_guest is inside "
                 "the region and then returns exactly it, else aborts; null aborts.",
